@@ -3,7 +3,7 @@
 T = "Pep508."
 PROPS = {
     "C09": {
-        "lean_targets": ["Pep508.Theorems.C09"],
+        "lean_targets": ["Pep508.Theorems.C09", "Pep508.Theorems.NonVacuityD"],
         "theorems": [
             "Pep508.Names.C09.accept_iff_valid",
             "Pep508.Names.C09.stored_is_normal_form",
@@ -22,7 +22,7 @@ PROPS = {
         "assumptions": ["names are modelled as byte lists; the model's Nat bytes are unbounded (the property does not depend on < 256)"],
     },
     "C02": {
-        "lean_targets": ["Pep508.Theorems.C02"],
+        "lean_targets": ["Pep508.Theorems.C02", "Pep508.Theorems.NonVacuityA"],
         "theorems": [
             "Pep508.C02.eval_and", "Pep508.C02.eval_or", "Pep508.C02.eval_not",
             "Pep508.C02.OK_and", "Pep508.C02.OK_or", "Pep508.C02.OK_not",
@@ -65,7 +65,7 @@ PROPS = {
         "assumptions": ["`wf` of the operands: C20"],
     },
     "C20": {
-        "lean_targets": ["Pep508.Theorems.C20"],
+        "lean_targets": ["Pep508.Theorems.C20", "Pep508.Theorems.NonVacuityA"],
         "theorems": [
             "Pep508.C20.wf_true", "Pep508.C20.wf_false", "Pep508.C20.wf_and", "Pep508.C20.wf_or", "Pep508.C20.wf_not",
             "Pep508.C20.apply_ranges_nonempty", "Pep508.C20.wf_covers", "Pep508.PartL_product", "Pep508.partitionFrom_coalesce",
@@ -83,7 +83,7 @@ PROPS = {
         "assumptions": [],
     },
     "C04": {
-        "lean_targets": ["Pep508.Theorems.C04"],
+        "lean_targets": ["Pep508.Theorems.C04", "Pep508.Theorems.NonVacuityA"],
         "theorems": ["Pep508.C04.is_disjoint_sound", "Pep508.C04.is_disjoint_symm", "Pep508.C04.is_disjoint_iff_and_false",
                      "Pep508.C04.is_false_sound", "Pep508.C04.is_true_sound", "Pep508.C04.and_false_sound",
                      "Pep508.isDisjointF_sound", "Pep508.isDisjointF_comm", "Pep508.isDisjointF_iff_andF"],
@@ -95,7 +95,7 @@ PROPS = {
         "trusted": [], "assumptions": [],
     },
     "C11": {
-        "lean_targets": ["Pep508.Theorems.C11", "Pep508.Theorems.C05", "Pep508.Theorems.C05b"],
+        "lean_targets": ["Pep508.Theorems.C11", "Pep508.Theorems.C05", "Pep508.Theorems.C05b", "Pep508.Theorems.NonVacuityA"],
         "theorems": ["Pep508.C11.restrict_eval", "Pep508.C11.restrict_independent", "Pep508.C11.not_mentioned_irrelevant",
                      "Pep508.C11.with_extra_marker_eval", "Pep508.C11.extra_expr_eval", "Pep508.OK_restrict", "Pep508.C05.common_term_holds_norm"],
         "suites": [{"name": "algebra", "args": ["C11"]}, {"name": "algebra", "args": ["C05"]}],
@@ -106,7 +106,7 @@ PROPS = {
         "trusted": ["top_level_extra is decided by the DNF model (C05)"], "assumptions": [],
     },
     "C13": {
-        "lean_targets": ["Pep508.Theorems.C13", "Pep508.Theorems.C13b"],
+        "lean_targets": ["Pep508.Theorems.C13", "Pep508.Theorems.C13b", "Pep508.Theorems.NonVacuityA"],
         "theorems": ["Pep508.C13.evaluate_extras_sound", "Pep508.C13.evaluate_extras_false", "Pep508.evalExtras_sound",
                      "Pep508.C13.evaluate_extras_exact", "Pep508.C13.evaluate_extras_iff_dense", "Pep508.C13.evaluate_extras_false_iff",
                      "Pep508.C13.evaluate_extras_iff_partial", "Pep508.C13.exact_fails_over_int", "Pep508.C13.exact_fails_unordered"],
@@ -118,7 +118,7 @@ PROPS = {
         "trusted": ["'variables are independent' is the model's environment (one free value per diagram variable): exactness is a theorem there; dependencies between diagram variables of the real code (`'x' in os_name` vs `os_name == 'y'`) are outside it, as the property states"], "assumptions": ["every valid interval of the value order is inhabited (dense order), or every edge interval of the diagram is inhabited"],
     },
     "C12": {
-        "lean_targets": ["Pep508.Theorems.C12", "Pep508.Theorems.C12b"],
+        "lean_targets": ["Pep508.Theorems.C12", "Pep508.Theorems.C12b", "Pep508.Theorems.NonVacuityA"],
         "theorems": ["Pep508.C12.complexify_eval", "Pep508.C12.simplify_eval_inside", "Pep508.C12.complexify_wf", "Pep508.C12.simplify_wf",
                      "Pep508.C12.complexify_eq_and", "Pep508.C12.complexify_simplify", "Pep508.C12.complexify_congr",
                      "Pep508.C12.eval_pyRangeMarker", "Pep508.C12.wf_pyRangeMarker", "Pep508.simplifyEdges_ne_nil", "Pep508.filter_part",
@@ -135,7 +135,7 @@ PROPS = {
         "trusted": [], "assumptions": [],
     },
     "C10": {
-        "lean_targets": ["Pep508.Theorems.C10"],
+        "lean_targets": ["Pep508.Theorems.C10", "Pep508.Theorems.NonVacuityB"],
         "theorems": ["Pep508.C10.python_version_sem", "Pep508.C10.ne_is_not_eq", "Pep508.C10.neStar_is_not_eqStar", "Pep508.C10.notIn_is_not_in",
                      "Pep508.C10.python_version_in_sem", "Pep508.C10.python_version_wf", "Pep508.mem_releaseSpecToRange", "Pep508.specSem_normalize",
                      "Pep508.Ranges.mem_union", "Pep508.Ranges.mem_complement", "Pep508.eval_rangeNode"],
@@ -148,7 +148,7 @@ PROPS = {
         "trusted": ["pep440_rs parses the literal; only its release segments reach the model"], "assumptions": [],
     },
     "C01": {
-        "lean_targets": ["Pep508.Theorems.C17b", "Pep508.Theorems.C01b", "Pep508.Theorems.C01", "Pep508.Theorems.C10"],
+        "lean_targets": ["Pep508.Theorems.C17b", "Pep508.Theorems.C01b", "Pep508.Theorems.C01", "Pep508.Theorems.C10", "Pep508.Theorems.NonVacuityB"],
         "theorems": ["Pep508.C17.atom_shape", "Pep508.C17.atom_key_in_string", "Pep508.C17.atom_key_notin_string", "Pep508.C17.atom_string_in_key", "Pep508.C17.atom_string_notin_key", "Pep508.C01.layout_parses", "Pep508.C01.layout_parses_cursor", "Pep508.C01.layout_then_junk", "Pep508.C01.layout_parses_sub", "Pep508.C01.more_fuel_same", "Pep508.C01.layout_independent", "Pep508.C01.paren_transparent", "Pep508.C01.atom_key_op_string", "Pep508.C01.atom_string_op_key", "Pep508.C01.kwStop_iff", "Pep508.C01.quote_then_keyword", "Pep508.C01.keyword_glued_right", "Pep508.C01.keyword_glued_left", "Pep508.C01.expr_version", "Pep508.C01.expr_version_in", "Pep508.C01.expr_string", "Pep508.C01.expr_in", "Pep508.C01.expr_not_in",
                      "Pep508.C01.expr_contains", "Pep508.C01.expr_not_contains", "Pep508.C01.expr_extra", "Pep508.C01.expr_wf", "Pep508.C01.skeleton",
                      "Pep508.C01.parse_total", "Pep508.C01.inverted_string", "Pep508.C10.python_version_sem"],
@@ -163,7 +163,7 @@ PROPS = {
         "assumptions": ["environments are final releases with python_version = major.minor of python_full_version (the property's quantifier)"],
     },
     "C06": {
-        "lean_targets": ["Pep508.Theorems.C06", "Pep508.Theorems.C19b"],
+        "lean_targets": ["Pep508.Theorems.C06", "Pep508.Theorems.C19b", "Pep508.Theorems.NonVacuityC"],
         "theorems": ["Pep508.C06.marker_tree_never_panics", "Pep508.C06.marker_tree_err_span", "Pep508.C06.marker_tree_err_sliceable",
                      "Pep508.C06.marker_expression_never_panics", "Pep508.C06.marker_expression_err_span", "Pep508.C06.take_while_sliceable",
                      "Pep508.parseMarkers_total", "Pep508.descentOK", "Pep508.Cursor.takeWhile_slice",
@@ -180,7 +180,7 @@ PROPS = {
         "assumptions": ["unbounded parenthesis nesting exhausts the Rust stack; not claimed (the model's fuel is proved sufficient, the stack is not modelled)"],
     },
     "C17": {
-        "lean_targets": ["Pep508.Theorems.C17b", "Pep508.Theorems.C17"],
+        "lean_targets": ["Pep508.Theorems.C17b", "Pep508.Theorems.C17", "Pep508.Theorems.NonVacuityB"],
         "theorems": ["Pep508.C17.drop_is_removal", "Pep508.C17.warnings_in_order", "Pep508.C17.every_warning_reported", "Pep508.C17.dropped_reports", "Pep508.C17.pruned_atoms", "Pep508.C17.nothing_remains_iff", "Pep508.C17.parse_is_pruned", "Pep508.C17.uninterpretable_anywhere", "Pep508.C17.parse_same_tree", "Pep508.C17.parse_all_dropped", "Pep508.C17.pruned_wf_iff", "Pep508.C17.pruned_wf_can_fail", "Pep508.C17.atom_shape", "Pep508.C17.atom_string_op_string", "Pep508.C17.atom_key_op_key", "Pep508.C17.shape_dropped", "Pep508.C17.word_operator_needs_alpha", "Pep508.C17.example_paren_or", "Pep508.C17.reported_and_dropped", "Pep508.C17.never_silently", "Pep508.C17.version_kept_quiet", "Pep508.C17.chain_skips_dropped",
                      "Pep508.C17.chain_first_kept", "Pep508.dispatch_strKey_quoted", "Pep508.dispatch_quoted_strKey", "Pep508.dispatch_extra_valid", "Pep508.dispatch_extra_invalid"],
         "suites": [{"name": "mparse", "args": ["C17"]}],
@@ -191,7 +191,7 @@ PROPS = {
         "trusted": ["that evaluation-time warning collection does not change results is checked by the C01 suite (four entry points)"], "assumptions": [],
     },
     "C07": {
-        "lean_targets": ["Pep508.Theorems.C07", "Pep508.Theorems.C07b", "Pep508.Theorems.C06", "Pep508.Theorems.C17", "Pep508.Theorems.C18"],
+        "lean_targets": ["Pep508.Theorems.C07", "Pep508.Theorems.C07b", "Pep508.Theorems.C06", "Pep508.Theorems.C17", "Pep508.Theorems.C18", "Pep508.Theorems.NonVacuityC"],
         "theorems": ["Pep508.C07.layout_accepted", "Pep508.C07.layout_accepted_marker", "Pep508.C07.layout_calls", "Pep508.C07.layout_calls_spans",
                      "Pep508.C07.recorded_texts_trim", "Pep508.C07.layout_never_rejected", "Pep508.C07.layout_components", "Pep508.C07.layout_components_marker",
                      "Pep508.C07.whitespace_irrelevant", "Pep508.C07.whitespace_irrelevant_marker", "Pep508.C07.printed_is_layout",
@@ -226,7 +226,7 @@ PROPS = {
         "trusted": ["diagrams in which one version value is interned under two spellings (K1) are compared semantically only"], "assumptions": [],
     },
     "C08": {
-        "lean_targets": ["Pep508.Theorems.C05", "Pep508.Theorems.C08"],
+        "lean_targets": ["Pep508.Theorems.C05", "Pep508.Theorems.C08", "Pep508.Theorems.NonVacuityC"],
         "theorems": ["Pep508.C08.printed_form", "Pep508.C08.roundtrip", "Pep508.C08.roundtrip_marker", "Pep508.C08.marker_cursor",
                      "Pep508.C08.calls", "Pep508.C08.calls_spans", "Pep508.C08.never_rejected", "Pep508.C08.name_fixed",
                      "Pep508.C08.no_dot_not_archive", "Pep508.C08.url_semicolon_marker_rejected", "Pep508.C08.archive_name_rejected",
@@ -238,7 +238,7 @@ PROPS = {
         "trusted": ["pep440_rs / url printers re-parse to themselves (checked on every generated value by the round trip itself)"], "assumptions": [],
     },
     "C16": {
-        "lean_targets": ["Pep508.Theorems.C16"],
+        "lean_targets": ["Pep508.Theorems.C16", "Pep508.Theorems.NonVacuityD"],
         "theorems": ["Pep508.C16.cmp_eq_iff", "Pep508.C16.cmp_eq_iff_beq", "Pep508.C16.cmp_swap", "Pep508.C16.cmp_trans", "Pep508.C16.cmp_trans_le",
                      "Pep508.C16.cmp_total", "Pep508.C16.sorted_unique", "Pep508.C16.strictSorted_unique", "Pep508.Tree.cmp_transAt", "Pep508.cmpIvl_eq_iff"],
         "suites": [{"name": "hist", "args": ["C16"]}],
@@ -250,7 +250,7 @@ PROPS = {
         "trusted": [], "assumptions": [],
     },
     "C18": {
-        "lean_targets": ["Pep508.Theorems.C18", "Pep508.Theorems.C18b"],
+        "lean_targets": ["Pep508.Theorems.C18", "Pep508.Theorems.C18b", "Pep508.Theorems.NonVacuityC"],
         "theorems": ["Pep508.C18.scan_is_rule", "Pep508.C18.rule_url", "Pep508.C18.rule_ambiguous", "Pep508.C18.parse_url_is_rule", "Pep508.parseUrl_total",
                      "Pep508.C18.expand_meets_spec", "Pep508.C18.spec_functional", "Pep508.C18.expand_iff_spec", "Pep508.C18.reference_anywhere",
                      "Pep508.C18.set_variable", "Pep508.C18.unset_variable", "Pep508.C18.project_root_unset", "Pep508.C18.lookupVar_none_iff",
@@ -264,7 +264,7 @@ PROPS = {
         "trusted": ["url::Url::parse and its Display"], "assumptions": [],
     },
     "C14": {
-        "lean_targets": ["Pep508.Theorems.C14"],
+        "lean_targets": ["Pep508.Theorems.C14", "Pep508.Theorems.NonVacuityD"],
         "theorems": ["Pep508.C14.inv_init", "Pep508.C14.ids_canonical", "Pep508.C14.old_ids_stable", "Pep508.C14.and_refines", "Pep508.C14.or_refines", "Pep508.C14.create_node_refines", "Pep508.C14.cache_transparent", "Pep508.C14.same_id_later", "Pep508.C14.history_independent", "Pep508.C14.and_after_any_history", "Pep508.andF_fuel_irrelevant"],
         "suites": [{"name": "hist", "args": ["C14"]}],
         "rule": "(1) the id-level model (arena + unique table + AND cache + complemented edges) is run by the driver on pool operands after random warm-up contents of the arena and cache: "
@@ -275,7 +275,7 @@ PROPS = {
         "trusted": ["FxHashMap / boxcar are assumed to be a correct map / append-only vector"], "assumptions": [],
     },
     "C15": {
-        "lean_targets": ["Pep508.Theorems.C15"],
+        "lean_targets": ["Pep508.Theorems.C15", "Pep508.Theorems.NonVacuityD"],
         "theorems": ["Pep508.C15.schedule_inv", "Pep508.C15.step_result_independent_of_interleaving", "Pep508.C15.racing_threads_same_id", "Pep508.C14.and_refines", "Pep508.C14.ids_canonical"],
         "suites": [{"name": "hist", "args": ["C15"]}],
         "rule": "2, 8 and 16 threads released by a barrier execute the same script (parse, and, or, not, simplify_extras, render, DNF, ==, cmp, hash) on literals salted per run so that all "
@@ -284,7 +284,7 @@ PROPS = {
         "trusted": ["memory ordering of the lock-free arena reads and deadlock-freedom of std::sync::Mutex are outside any executable model"], "assumptions": [],
     },
     "C19": {
-        "lean_targets": ["Pep508.Theorems.C19", "Pep508.Theorems.C19b"],
+        "lean_targets": ["Pep508.Theorems.C19", "Pep508.Theorems.C19b", "Pep508.Theorems.NonVacuityC"],
         "theorems": ["Pep508.C19.unnamed_no_panic", "Pep508.C19.unnamed_err_boundary", "Pep508.C19.unnamed_call_span", "Pep508.C19.scan_is_rule", "Pep508.C19.parse_unnamed_url_is_rule", "Pep508.C19.rule_is_first_stop", "Pep508.C19.token_no_ws", "Pep508.C19.ws_in_brackets", "Pep508.C19.accepts", "Pep508.C19.accepts_marker", "Pep508.C19.roundtrip", "Pep508.C19.roundtrip_marker", "Pep508.C19.bracket_ambiguity", "Pep508.C19.old_requirement_end", "Pep508.C19.archive_rule", "Pep508.C19.scheme_rule", "Pep508.C19.path_unsupported", "Pep508.C19.path_never_accepted",
                      "Pep508.C19.scheme_url_unsupported", "Pep508.C19.scheme_url_never_accepted", "Pep508.C19.relpath_unsupported",
                      "Pep508.C19.relpath_never_accepted", "Pep508.C19.archive_name_unsupported", "Pep508.C19.archive_name_extras_unsupported",
